@@ -6,6 +6,14 @@
 // The parent process only supervises: all scenarios run in a child process so
 // that a panic inside the dispatcher (its goroutines cannot be recovered from
 // outside) is reported as a violation instead of killing the check.
+//
+// Two parts: (1) in-process scenarios that drive the dispatcher and the real
+// workers with the harness's own query.Peer implementations, and (2) the L2
+// family (internal/c12/l2.go): the complete client against wire-level peers,
+// queries through GetBlock / GetCFilter while peers are disconnected locally in
+// the middle of answering — that part puts the ServerPeer adaptor (the
+// query.Peer the client really uses) under the dispatcher. Each L2 scenario is
+// a process of its own (this binary with VERIF_CHILD_SCENARIO set).
 package main
 
 import (
@@ -151,6 +159,22 @@ func runChild() {
 		if err != nil {
 			fmt.Fprintln(os.Stderr, "replay:", err)
 			os.Exit(2)
+		}
+		// A witness of the L2 family names its scenario by number.
+		var l2doc struct {
+			Seed    int64 `json:"seed"`
+			Witness struct {
+				Scenario json.RawMessage `json:"scenario"`
+			} `json:"witness"`
+		}
+		if json.Unmarshal(b, &l2doc) == nil {
+			var k int
+			if json.Unmarshal(l2doc.Witness.Scenario, &k) == nil {
+				for i := 0; i < max(*repeat, 1); i++ {
+					c12.L2Replay(r, l2doc.Seed, k)
+				}
+				r.Finish(1)
+			}
 		}
 		var doc struct {
 			Witness struct {
